@@ -84,6 +84,34 @@ def worker(seed: int, n: int):
             for t in terms[1:]:
                 obj = obj + t if r.random() < 0.7 else t + obj
             cons = [vs[r.randrange(len(vs))] * 2 - 1 for _ in range(r.randint(0, 2))]
+        elif i % 11 == 3:
+            # every kind of block of a symmetric matrix (principal, off-diagonal square, rectangular) and of its transpose: the
+            # variables of `B.sum()` are the distinct entries of the block
+            from optyx.core.matrices import frobenius_norm as _frob
+            nS = r.choice([3, 4])
+            Sm = MatrixVariable(r.choice(["S", "K2", "S10"]), nS, nS, symmetric=True)
+            Sm = Sm.T if r.random() < 0.3 else Sm
+            r0 = r.randrange(nS - 1); r1 = r.randint(r0 + 1, nS)
+            c0 = r.randrange(nS - 1); c1 = r.randint(c0 + 1, nS)
+            B = Sm[r0:r1, c0:c1]
+            if not hasattr(B, "rows"):
+                B = Sm
+            obj = r.choice([lambda: B.sum(), lambda: _frob(B) if B.rows * B.cols > 1 else B.sum(), lambda: (B * 2).sum()])()
+            cons = [Sm[0, 0] + Sm[nS - 1, nS - 1] - 1] if r.random() < 0.5 else []
+            mode = 0.98
+        elif i % 11 == 7:
+            # vectors whose BASE name carries a number, next to scalars and vectors sharing the alphabetic prefix: natural order puts
+            # w2[...] before w10[...], x1 before x2[...] before x10
+            base = r.choice(["w", "x", "q"])
+            v2, v10 = VectorVariable(f"{base}2", r.randint(1, 3)), VectorVariable(f"{base}10", r.randint(1, 3))
+            s1, s3, s11 = Variable(f"{base}1"), Variable(f"{base}3"), Variable(f"{base}11", lb=0.0)
+            pieces = [v2.sum(), g.coeffs(v10.size) @ v10, s1 * 2, s3, s11 * 0.5, (v10 ** 2).sum()]
+            r.shuffle(pieces)
+            obj = pieces[0]
+            for t in pieces[1:r.randint(2, len(pieces))]:
+                obj = obj + t if r.random() < 0.6 else t + obj
+            cons = [v2.sum() + v10.sum() - 1] if r.random() < 0.5 else [s3 - s1]
+            mode = 0.97
         elif i % 97 == 5:
             # a deep left spine of terms over pairwise DIFFERENT variables, the variable written on the left: the first one sits
             # at the bottom of the spine and nowhere else (the explicit-stack variable walk is used from depth 400)
@@ -124,7 +152,7 @@ def worker(seed: int, n: int):
             bnds_t = ser.lst(f"({oq(lb)}, {oq(ub)})" for lb, ub in bounds)
             case = f"({t}, {ser.lst(tc)}, {ser.lst(ser.s(n) for n in names)}, {decl_t}, {bnds_t})"
             out.append({"case": case, "names": names, "shortcut": _try_get_single_vector_source(P.objective) is not None,
-                        "mode": ("view" if mode < 0.3 else "adversarial" if mode < 0.6 else "deep" if mode == 0.99 else "general") + tag,
+                        "mode": ("view" if mode < 0.3 else "adversarial" if mode < 0.6 else "deep" if mode == 0.99 else "symmetric-block" if mode == 0.98 else "numbered-vectors" if mode == 0.97 else "general") + tag,
                         "binary_bounds_ok": all((v.lb, v.ub) == (0.0, 1.0) for v in variables if v.domain == "binary")})
         observe("")
         # histories: the list has been materialised; now the model is edited and read again
